@@ -121,7 +121,7 @@ func From(input any) (Any, error) {
 		}
 		return value, nil
 	case *dtpb.Quantity:
-		value, err := decimal.NewFromString(v.Value.Value)
+		value, err := decimal.NewFromString(v.GetValue().GetValue())
 		if err != nil {
 			return nil, err
 		}
